@@ -392,6 +392,8 @@ def eval_e2e(ctx, case):
     if got_classes != exp_classes or got_names != ([exp_name.lower()] if exp_name else []):
         key = "options:priority-over-additional" if ("class" in block and "class" in attrs) or ("name" in block and "id" in attrs) else "e2e:fence-attributes-not-passed"
         ctx.violation(key, f"fence attributes {attrs} + block options {block}: node has classes {got_classes} names {got_names}; expected classes {exp_classes} name {exp_name}", case, {"text": text, "warnings": w})
+    if "[myst." in w:
+        ctx.violation("e2e:spurious-warning", f"valid fence attributes / options produced a warning: {w.strip()[:160]}", case, {"text": text})
     if "body text" not in adm.astext():
         ctx.violation("e2e:body-lost", "the fence body was not rendered inside the directive", case, {"text": text})
 
